@@ -333,7 +333,30 @@ static int corpus_adversarial(corpus_iter *it, uint64_t k) {
         static const size_t ST[] = {2, 5, 10, 16};
         uint64_t j = k - 26;
         if (j >= (sizeof LN / sizeof *LN) * (sizeof ST / sizeof *ST)) {
-            return 0;
+            /* nearly sorted family: ascending except for ONE displaced element (a late record, a swapped pair, an
+             * end-of-list sentinel), at the first / middle / last-but-one / last position, for lengths around a sort
+             * shortcut's threshold and a 128-block; low-cardinality (dictionary data) and all-distinct variants */
+            static const size_t NL[] = {8, 31, 32, 33, 100, 129, 257, 400};
+            uint64_t q = j - (sizeof LN / sizeof *LN) * (sizeof ST / sizeof *ST);
+            if (q >= 8 * 4 * 3) {
+                return 0;
+            }
+            size_t len = NL[q / 12], where = (size_t)(q % 12) / 3;
+            int variant = (int)(q % 3);
+            size_t pos = where == 0 ? 1 : where == 1 ? len / 2 : where == 2 ? len - 2 : len - 1;
+            for (n = 0; n < len; n++) {
+                v[n] = variant == 0 ? 200 + 100 * (n * 4 / len) : 1000 + 10 * n;
+            }
+            if (variant == 2) {
+                v[len - 1] = UINT64_MAX; /* sentinel last: one jump of almost 2^64 */
+                snprintf(it->desc, sizeof it->desc, "n=%zu ascending ids then the sentinel 2^64-1 (pos unused %zu)", len, pos);
+            } else {
+                /* the displaced element is smaller than its predecessor, not smaller than the first element, and
+                 * occurs nowhere else */
+                v[pos] = v[pos - 1] > v[0] ? v[0] + (v[pos - 1] - v[0]) / 2 + 1 : v[0];
+                snprintf(it->desc, sizeof it->desc, "n=%zu ascending %s except element %zu = %" PRIu64, len, variant ? "distinct" : "over 4 distinct", pos, v[pos]);
+            }
+            break;
         }
         size_t len = LN[j / 4], stride = ST[j % 4];
         for (n = 0; n < len; n++) {
@@ -710,6 +733,53 @@ static int corpus_next(corpus_iter *it) {
             it->n = n;
             snprintf(it->desc, sizeof it->desc, "n=%zu: %s cluster then exactly %zu nine-byte outliers at the end", n, narrow ? "narrow (1000..1099)" : "constant (1000)", K);
             strcpy(it->family, "S5");
+            return 1;
+        }
+        case 13: { /* S6 byte-pattern values: each of the 8 bytes drawn from {00, 01, 80, FF} - all 65536 values, i.e.
+                    * every pattern of equal / unequal bytes, halves and quarters a word-level shortcut (splat fill,
+                    * narrow-store, sign test) may key on; 256 values per array: once each, as runs of 3, and sorted */
+            const uint64_t per = 3;
+            const uint64_t blocks = it->thorough ? 256 : 64; /* quick: every 4th block */
+            if (i >= blocks * per) {
+                it->stage++;
+                it->i = 0;
+                continue;
+            }
+            uint64_t b = (i / per) * (it->thorough ? 1 : 4) + (it->thorough ? 0 : (i / per) % 4);
+            int t = (int)(i % per);
+            it->i++;
+            static const uint8_t SYM[4] = {0x00, 0x01, 0x80, 0xFF};
+            size_t n = 0;
+            if ((t == 1 ? 768u : 256u) > it->maxn) {
+                continue;
+            }
+            for (uint64_t c = 0; c < 256; c++) {
+                uint64_t code = b * 256 + ((c * 77 + 5) & 255), val = 0; /* scattered order inside the block */
+                if (t == 2) {
+                    code = b * 256 + c;
+                }
+                for (int k = 0; k < 8; k++) {
+                    val |= (uint64_t)SYM[(code >> (2 * k)) & 3] << (8 * (t == 2 ? 7 - k : k));
+                }
+                for (int r = 0; r < (t == 1 ? 3 : 1); r++) {
+                    it->v[n++] = val;
+                }
+            }
+            if (t == 2) { /* ascending: code order with the most significant byte from the top digits is monotone in the
+                           * symbol order 00 < 01 < 80 < FF only per digit - sort to be sure */
+                for (size_t a = 1; a < n; a++) {
+                    uint64_t x = it->v[a];
+                    size_t z = a;
+                    while (z > 0 && it->v[z - 1] > x) {
+                        it->v[z] = it->v[z - 1];
+                        z--;
+                    }
+                    it->v[z] = x;
+                }
+            }
+            it->n = n;
+            snprintf(it->desc, sizeof it->desc, "n=%zu byte-pattern values {00,01,80,FF}^8 block %" PRIu64 " %s", n, b, t == 0 ? "once each" : t == 1 ? "runs of 3" : "ascending");
+            strcpy(it->family, "S6");
             return 1;
         }
         default:
